@@ -21,6 +21,7 @@ type c18Op struct {
 	Sys     model.HexBytes `json:"sys,omitempty"`
 	Keys    []int          `json:"keys,omitempty"`    // indices into the bindings
 	Unknown bool           `json:"unknown,omitempty"` // add a key that names no variable
+	Alien   string         `json:"alien,omitempty"`   // the first key gets a Go value that no item takes (nil, a struct, ...): a rejected argument
 }
 
 type c18Case struct {
@@ -161,6 +162,13 @@ func checkC18(c c18Case) (ci caseInfo, err error) {
 				fill[a.Name] = a.goValue(c.Variant)
 				bind[a.Name] = a
 			}
+			if op.Alien != "" && len(op.Keys) > 0 && len(binds) > 0 {
+				a := binds[op.Keys[0]%len(binds)]
+				a = Assign{Name: a.Name, Kind: a.Kind, Alien: op.Alien}
+				fill[a.Name] = a.goValue(c.Variant)
+				bind[a.Name] = a
+				ci.label("fill:rejected-argument-type")
+			}
 			if op.Unknown {
 				fill["no_such_variable"] = 7
 			}
@@ -230,6 +238,9 @@ func genC18(t *rapid.T) c18Case {
 				Sys:     rapid.SliceOfN(rapid.Byte(), 0, 8).Draw(t, "sys")}
 		default:
 			op = c18Op{Kind: "fill", Keys: rapid.SliceOfN(rapid.IntRange(0, 40), 0, 6).Draw(t, "keys"), Unknown: rapid.IntRange(0, 3).Draw(t, "unknown") == 3}
+			if rapid.IntRange(0, 7).Draw(t, "alienArg") == 7 {
+				op.Alien = rapid.SampledFrom(alienTypes).Draw(t, "alien")
+			}
 		}
 		c.Ops = append(c.Ops, op)
 	}
